@@ -685,6 +685,25 @@ impl WorldC {
                 .map(|r| r.proposals)
                 .unwrap_or_default();
             for rp in &rev {
+                // C05: an observer who reads only the reverse listing must see the lifecycle move forward too
+                if let Some(last) = self.msigs[mi].props.get(&rp.id).map(|t| t.last_status.clone()) {
+                    let now = format!("{:?}", rp.status);
+                    let allowed = last == "New"
+                        || last == now
+                        || matches!(
+                            (last.as_str(), now.as_str()),
+                            ("Open", "Passed") | ("Open", "Rejected") | ("Open", "Executed") | ("Passed", "Executed")
+                        );
+                    if !allowed {
+                        self.viol(
+                            out,
+                            "C05",
+                            "status-moved-backwards",
+                            json!({"from": last, "to": now, "view": "reverse-listing"}),
+                            format!("proposal {} went {} -> {} in ReverseProposals", rp.id, last, now),
+                        );
+                    }
+                }
                 if let Some(lp) = props.iter().find(|x| x.id == rp.id) {
                     if lp != rp {
                         self.viol(
